@@ -12,6 +12,10 @@ the first `count` requests of that operation kind are answered by the fault.
                           response body (download) have passed
          'expire'      -> (B2) the account token is invalidated first, so the request is answered 401 until
                           the client re-authorises
+         'expire_upload_tokens' -> (B2, op upload) every upload URL / token pair issued so far expires (they live
+                          24 h at the real service): uploads to them are answered 401 until a new pair is requested
+         'sick_pod'    -> (B2, op upload) the pod behind the upload URL of this request answers 503 from now on;
+                          a pair from a fresh b2_get_upload_url works
 """
 from __future__ import annotations
 
@@ -265,7 +269,9 @@ class FakeB2(_FakeBase):
         self.bucket_id = 'bkt-' + hashlib.sha1(bucket_name.encode()).hexdigest()[:10]
         self.versions = {}            # name -> list of ('upload', bytes) | ('hide',), newest last
         self.tokens = set()
-        self.upload_tokens = set()
+        self.upload_pairs = {}        # upload URL path -> its authorisation token (every b2_get_upload_url issues a new pair)
+        self.expired_upload_tokens = set()
+        self.sick_upload_urls = set()
         self.ntok = 0
         self.synthetic_next = synthetic_next
 
@@ -273,6 +279,12 @@ class FakeB2(_FakeBase):
     @property
     def objects(self):
         return {k: v[-1][1] for k, v in self.versions.items() if v and v[-1][0] == 'upload'}
+
+    def expire_upload_tokens(self):
+        self.expired_upload_tokens.update(self.upload_pairs.values())
+
+    def make_upload_pods_sick(self):
+        self.sick_upload_urls.update(self.upload_pairs)
 
     def _json(self, status, obj, headers=None):
         return httpx.Response(status, content=json.dumps(obj).encode(), headers=dict({'content-type': 'application/json'}, **(headers or {})))
@@ -309,6 +321,12 @@ class FakeB2(_FakeBase):
         if kind == 'expire':
             self.tokens.clear()
             kind = None
+        if kind == 'expire_upload_tokens':
+            self.expire_upload_tokens()
+            kind = None
+        if kind == 'sick_pod':
+            self.sick_upload_urls.add(request.url.path)
+            kind = None
         if kind == 'drop':
             self.log.append((op, None, 'drop'))
             raise httpx.ConnectError('fake: connection refused')
@@ -333,8 +351,12 @@ class FakeB2(_FakeBase):
                 raise
             name = unquote_plus(request.headers.get('x-bz-file-name', ''))
             declared = request.headers.get('content-length')
-            if auth not in self.upload_tokens:
+            if request.url.path in self.sick_upload_urls:
+                resp = self._error(503, 'service_unavailable')
+            elif self.upload_pairs.get(request.url.path) != auth:
                 resp = self._error(401, 'bad_auth_token')
+            elif auth in self.expired_upload_tokens:
+                resp = self._error(401, 'expired_auth_token')
             elif declared is None or int(declared) != len(body):
                 resp = self._error(400, 'bad_request')
             else:
@@ -364,10 +386,11 @@ class FakeB2(_FakeBase):
                 resp = self._json(200, {'buckets': [{'bucketId': 'bkt-other', 'bucketName': 'some-other-bucket'},
                                                     {'bucketId': self.bucket_id, 'bucketName': self.bucket_name}]})
             elif op == 'get_upload_url':
-                tok = f'upload-token-{self.nrequests}'
-                self.upload_tokens.add(tok)
-                resp = self._json(200, {'bucketId': self.bucket_id, 'uploadUrl': f'{self.POD}/b2api/v2/b2_upload_file/{self.bucket_id}/c{self.nrequests}',
-                                        'authorizationToken': tok})
+                self.npairs = getattr(self, 'npairs', 0) + 1
+                tok = f'upload-token-{self.npairs}'
+                path = f'/b2api/v2/b2_upload_file/{self.bucket_id}/c{self.npairs:04d}'
+                self.upload_pairs[path] = tok
+                resp = self._json(200, {'bucketId': self.bucket_id, 'uploadUrl': self.POD + path, 'authorizationToken': tok})
             elif op == 'hide_file':
                 name = body['fileName']
                 vs = self.versions.get(name)
